@@ -2,6 +2,7 @@ import PV.Model.RaInsert
 import PV.IC10.Machine
 import PV.Gen.Tables
 import PV.Proofs.Leaf
+import PV.Proofs.CoreComp
 /-!
 # C06 — calls return to their call site; arguments and results arrive intact   (partial)
 
@@ -140,6 +141,34 @@ theorem leaf_call_returns_to_call_site (sem : Sem V) (env : Env V) (P : List (In
   (PV.Leaf.call_leaf_returns sem env P lo hi hsp hck hof hlo s c v d rest hh hpc hi' hv hd).2.2
 
 end leaf
+
+/-! ### calls in the proved core language: the call of a procedure — which may itself call procedures of smaller rank, saving `ra` on the call
+stack — comes back to the line after the `jal` at the same stack depth, having done exactly what the procedure body does (instance of `PV.Core.sim`; `harness/c01.py` ties `compProg (flatten src)` to the real
+pre-allocation code of programs with leaf functions) -/
+
+section corecall
+open PV.IC10 PV.Core
+variable {V : Type}
+
+theorem core_call_returns (sem : Sem V) (lo : Nat) (env : Env V) (lit : Nat → V) (entry : Nat → Nat) (F : Nat → Stmt V) (P : List (Instr Reg V))
+    (rk : Nat → Nat) (okP : Nat → Prop)
+    (hlit : ∀ n, sem.toAddr (lit n) = some n) (hof : ∀ n, sem.toAddr (sem.ofNat n) = some n) (hlo : lo ≤ stackSize)
+    (hok : ∀ k, okP k → ProcOk sem lo lit entry F P rk okP k) (k : Nat) (hk : okP k)
+    (c : Nat) (hcode : P[c]? = some ⟨.jal, none, [.num (lit (entry k))]⟩)
+    (fuel : Nat) (σ σ' : SSt V) (st : St Reg V) (d : Nat) (stk : List V) (hd : d + (rk k + 1) ≤ lo) (hat : At sem lo st σ c d stk)
+    (h : exec sem env F fuel (.call k) σ = .done σ') :
+    ∃ n, At sem lo (run sem env P n st) σ' (c + 1) d stk := by
+  have hc : CodeAt P c (comp lit entry (.call k) c 0 0 0) := by
+    intro i hi
+    simp only [comp, List.length_singleton] at hi
+    have : i = 0 := by omega
+    subst this
+    simpa [comp] using hcode
+  obtain ⟨n, hn, _⟩ := (sim sem lo env lit entry F P rk okP hlit hof hlo hok fuel (.call k) (fun j => j = k) (rk k + 1)
+    (fun j hj => by subst hj; exact ⟨hk, Nat.lt_succ_self _⟩) rfl c 0 0 0 σ st d stk hd hc hat).1 .norm σ' h
+  exact ⟨n, by simpa [land, size] using hn⟩
+
+end corecall
 
 /-! non-vacuity: `jal 2 ; hcf ; s … ; j ra` — the body at lines 2..3 is accepted -/
 section leafdemo
